@@ -17,6 +17,10 @@ SEED_INPUTS = {"self._hashfn", "self.time_fn", "param.random_seed", "self.seed",
 
 def run(ctx):
     ctx.rule("R19.h", "the times saved by open `with time:` contexts are touched only by the context protocol: the only writers of Time._pushed_state are __init__ (empty), __enter__ (push) and __exit__ (pop); nothing else rewrites what a context will restore", floor=2)
+    ctx.rule("R19.w", "who may write the per-generator state: _Dynamic_last / _Dynamic_time only in Dynamic._initialize_generator, Dynamic._produce_value (paired, R19.c) and "
+                      "Parameters._state_pop; _Dynamic_time_fn only in _initialize_generator and Parameters.set_dynamic_time_fn", floor=8)
+    ctx.rule("R19.t", "time-fn model: Parameters.set_dynamic_time_fn interpreted for an instance whose parameter holds a generator set on the instance (class default: a number) and for a class "
+                      "whose default is a generator: the object and every generator currently producing ITS values (asked of the object, not of its class) receive the clock", floor=1)
     ctx.rule("R19.a", "every random generator's __call__ reseeds (super().__call__()) on all paths before it draws from self.random_generator; "
                       "RandomDistribution.__call__ reseeds under time_dependent; the seed is a function of (name-hash, time, global seed) only; "
                       "Hash.__call__ works on a copy of the digest", floor=9)
@@ -392,3 +396,6 @@ def hash_state_agreement(ctx, rule):
                  key=hset.qualname + "::digest-inputs-differ", input="gen = UniformRandom(seed=42); copy.deepcopy(gen)() != gen() at the same time")
     else:
         ctx.ok(rule, hset, hset.node, "__init__ and __setstate__ feed the md5 state the same %d input(s)" % len(f_init))
+    from checks.shared import dynamic_cache_writers, time_fn_model
+    dynamic_cache_writers(ctx, "R19.w")
+    time_fn_model(ctx, "R19.t")
